@@ -30,6 +30,10 @@ def items(tier):
                                            "sysofeq-n3-2rhs", "assemble-stiffness-1x1x1"):
             continue        # heavy items: thorough tier only
         out.append(dict(g, kind="linear:" + g["mod"]))
+        if g["mod"] == "complex" and g.get("which") == "ComplexNorm":
+            # entries with |z| = 0 admitted (the division restricts the clean code's paths to |z| != 0 by itself;
+            # code that branches on |z| == 0 is followed into that branch): states must stay untouched there too
+            out.append(dict(g, kind="linear:" + g["mod"], id=g["id"] + "-zero-allowed", allow_zero=True))
         if g.get("scaling") == "frozen":
             # scalar seeds handed over as 0-d arrays (what an upstream NumPy module produces): mutable seeds
             out.append(dict(g, kind="linear:" + g["mod"], id=g["id"] + "-seed0d", seed0d=True))
@@ -146,6 +150,26 @@ def scenario(V, P, cfg):
         obs["g1_%d" % i], obs["g2_%d" % i], obs["g12_%d" % i], obs["gtw_%d" % i] = g1[i], g2[i], g12[i], gtw[i]
     if not V.symbolic:
         obs["_first_response_input_change"] = first_change
+
+        def _maxchg(pairs):
+            worst = 0.0
+            for x, y in pairs:
+                if x is None or y is None:
+                    if (x is None) != (y is None):
+                        worst = float("inf")
+                    continue
+                xa, ya = np.asarray(x, dtype=complex), np.asarray(y, dtype=complex)
+                if xa.shape != ya.shape:
+                    worst = float("inf")
+                elif xa.size:
+                    dlt = np.abs(xa - ya)
+                    worst = max(worst, float(np.max(np.where(np.isnan(dlt), np.inf, dlt))))
+            return worst
+        obs["_chg:state-after-sensitivity"] = _maxchg(zip(sb1, sa1))
+        obs["_chg:state-after-reset"] = _maxchg(zip(st_pre_reset, st_post_reset))
+        obs["_chg:input-state-after-response"] = _maxchg(zip(state_before, state_after))
+        obs["_chg:sensitivity-after-response"] = _maxchg(zip(sens_in_before, sens_in_after))
+        obs["_chg:reset-clears"] = 0.0 if all(none_after_reset) else 1.0
     if P is not None:
         for i in range(len(ins)):
             if g1[i] is None and g2[i] is None and g12[i] is None and gtw[i] is None:
@@ -208,6 +232,9 @@ def replay(cfg, label, env, case):
         det["in%d" % i] = dict(linearity_err=e1, twice_err=e2)
         if ("linear" in label and e1 > 1e-8 * sc) or ("twice" in label and e2 > 1e-8 * sc):
             bad = True
-    if label.startswith(("state-", "input-state", "sensitivity-after", "reset-clears")):
-        return dict(reproduced=None, detail="state/aliasing clauses are replayed by inspection only: " + label)
+    for pre in ("state-after-sensitivity", "state-after-reset", "input-state-after-response", "sensitivity-after-response",
+                "reset-clears"):
+        if label.startswith(pre):
+            ch = obs.get("_chg:" + pre, 0.0)
+            return dict(reproduced=bool(ch > 0), detail={"clause": pre, "max_abs_change_on_the_real_library": ch})
     return dict(reproduced=bad, detail=det)
